@@ -50,6 +50,7 @@ FUNCTIONS = [
     ("linkhash.c", "lh_table_lookup_entry_w_hash"),
     ("json_pointer.c", "is_valid_index"),
     ("arraylist.c", "array_list_del_idx"),
+    ("json_util.c", "json_object_from_fd_ex"),
 ]
 
 
@@ -243,6 +244,9 @@ class Fn:
         if kind == "UnaryExprOrTypeTraitExpr":
             if n.get("name") == "sizeof":
                 at = n.get("argType") or (n["inner"][0].get("type") if n.get("inner") else None)
+                m = re.fullmatch(r"(?:const )?(?:unsigned |signed )?char ?\[(\d+)\]", (at or {}).get("desugaredQualType", (at or {}).get("qualType", "")))
+                if m:
+                    return k(lit(int(m.group(1))), env)
                 kk, bits, _ = ctype(at)
                 if kk in ("I", "P", "F") and bits:
                     return k(lit(bits // 8), env)
@@ -673,6 +677,11 @@ class Fn:
                     return decls(ds[1:], e)
                 ty = ctype(d.get("type", {}))
                 nm = d["name"]
+                q = d.get("type", {}).get("desugaredQualType", d.get("type", {}).get("qualType", ""))
+                if q.rstrip().endswith("]") and "init" not in d:
+                    # a local array: an object of its own, known by its (abstract, non-null) address
+                    self.locals[nm] = ("P", 64, False)
+                    return "let %s : Int := (CSem.addrOf \"%s\")\n%s" % (nm, nm, decls(ds[1:], e + [nm]))
                 if ty[0] == "R":
                     raise Untranslatable("local of record / array type: " + nm)
                 if d.get("storageClass") == "static":
